@@ -15,6 +15,7 @@ REGISTRY = {
     "C09": ("checks.ledger_checks", "c09"),
     "C11": ("checks.ledger_checks", "c11"),
     "C07": ("checks.calls_checks", "c07"),
+    "C08": ("checks.calls_checks", "c08"),
 }
 
 
